@@ -207,21 +207,33 @@ def cache_store(path, r):
     json.dump(d, open(path, "w"))
 
 
+_QLOCK = None
+
+
 def qualify(name):
-    """Fully qualified harness path, found by scanning /verif/harness."""
-    if not _QUAL:
-        hd = os.path.join(os.path.dirname(os.path.dirname(os.path.abspath(__file__))), "harness")
-        for fn in os.listdir(hd):
-            if fn.endswith(".rs"):
-                txt = open(os.path.join(hd, fn)).read()
-                for m in re.finditer(r"^\s*(?:pub(?:\(crate\))? )?fn (\w+)\(\)", txt, re.M):
-                    _QUAL.setdefault(m.group(1), "internal::verif::%s::%s" % (fn[:-3], m.group(1)))
-                # macro-generated harnesses: some_macro!(harness_name, ...)
-                for m in re.finditer(r"^\w+!\(\s*(\w+)\s*[,)]", txt, re.M):
-                    _QUAL.setdefault(m.group(1), "internal::verif::%s::%s" % (fn[:-3], m.group(1)))
-    if name not in _QUAL and re.match(r"dir_(rm|ins|look)_", name):
-        return "internal::verif::h_dir::" + name  # generated by vlib/shapes.py
-    return _QUAL.get(name, name)
+    """Fully qualified harness path, found by scanning /verif/harness (thread-safe)."""
+    global _QLOCK
+    import threading
+    if _QLOCK is None:
+        _QLOCK = threading.Lock()
+    with _QLOCK:
+        if not _QUAL:
+            q = {}
+            hd = os.path.join(os.path.dirname(os.path.dirname(os.path.abspath(__file__))), "harness")
+            for fn in sorted(os.listdir(hd)):
+                if fn.endswith(".rs"):
+                    txt = open(os.path.join(hd, fn)).read()
+                    for m in re.finditer(r"^\s*(?:pub(?:\(crate\))? )?fn (\w+)\(\)", txt, re.M):
+                        q.setdefault(m.group(1), "internal::verif::%s::%s" % (fn[:-3], m.group(1)))
+                    # macro-generated harnesses: some_macro!(harness_name, ...)
+                    for m in re.finditer(r"^\w+!\(\s*(\w+)\s*[,)]", txt, re.M):
+                        q.setdefault(m.group(1), "internal::verif::%s::%s" % (fn[:-3], m.group(1)))
+            _QUAL.update(q)
+    if name not in _QUAL:
+        if re.match(r"dir_(rm|ins|look)_", name):
+            return "internal::verif::h_dir::" + name  # generated by vlib/shapes.py
+        raise KeyError("harness %s is registered but not defined in /verif/harness" % name)
+    return _QUAL[name]
 
 
 def run_harness(crate_dir, target_dir, name, timeout_s, mem_gb, log_path,
